@@ -25,21 +25,26 @@ struct NodeInfo {
   /// nearest enclosing element's id / name attribute values
   own_id: String,
   own_name: String,
+  /// id / name of the outermost enclosing element below the root (an ancestor of every node inside it)
+  top_id: String,
+  top_name: String,
   value: String,
 }
 
 fn dump(xml: &str) -> Option<Vec<NodeInfo>> {
   let doc = roxmltree::Document::parse(xml).ok()?;
   let mut out = vec![];
-  fn walk(n: roxmltree::Node, depth: usize, up_id: &str, up_name: &str, out: &mut Vec<NodeInfo>) {
+  fn walk(n: roxmltree::Node, depth: usize, up_id: &str, up_name: &str, top: &(String, String), out: &mut Vec<NodeInfo>) {
     let r = n.range();
+    let top: (String, String) = if depth == 2 { (n.attribute("id").unwrap_or("").to_string(), n.attribute("name").unwrap_or("").to_string()) } else { top.clone() };
+    let (top_id, top_name) = (top.0.clone(), top.1.clone());
     let id = n.attribute("id").map(|s| s.to_string()).unwrap_or_else(|| up_id.to_string());
     let name = n.attribute("name").map(|s| s.to_string()).unwrap_or_else(|| up_name.to_string());
     let kids: Vec<roxmltree::Node> = n.children().collect();
     let inner = if kids.is_empty() { (r.end, r.end) } else { (kids[0].range().start, kids[kids.len() - 1].range().end) };
     let tag = n.tag_name().name().to_string();
     let has_text = kids.iter().any(|k| k.is_text() && !k.text().unwrap_or("").trim().is_empty());
-    out.push(NodeInfo { kind: 'e', depth, name: tag.clone(), is_ref: tag == "typeRef" && has_text, range: (r.start, r.end), inner, own_id: id.clone(), own_name: name.clone(), value: n.text().unwrap_or("").trim().to_string() });
+    out.push(NodeInfo { kind: 'e', depth, name: tag.clone(), is_ref: tag == "typeRef" && has_text, range: (r.start, r.end), inner, own_id: id.clone(), own_name: name.clone(), top_id: top_id.clone(), top_name: top_name.clone(), value: n.text().unwrap_or("").trim().to_string() });
     for a in n.attributes() {
       let ar = a.range();
       let vr = a.value_range();
@@ -52,19 +57,21 @@ fn dump(xml: &str) -> Option<Vec<NodeInfo>> {
         inner: (vr.start, vr.end),
         own_id: id.clone(),
         own_name: name.clone(),
+        top_id: top_id.clone(),
+        top_name: top_name.clone(),
         value: a.value().to_string(),
       });
     }
     for k in kids {
       if k.is_element() {
-        walk(k, depth + 1, &id, &name, out);
+        walk(k, depth + 1, &id, &name, &top, out);
       } else if k.is_text() && !k.text().unwrap_or("").trim().is_empty() {
         let kr = k.range();
-        out.push(NodeInfo { kind: 't', depth: depth + 1, name: String::new(), is_ref: false, range: (kr.start, kr.end), inner: (kr.start, kr.end), own_id: id.clone(), own_name: name.clone(), value: String::new() });
+        out.push(NodeInfo { kind: 't', depth: depth + 1, name: String::new(), is_ref: false, range: (kr.start, kr.end), inner: (kr.start, kr.end), own_id: id.clone(), own_name: name.clone(), top_id: top_id.clone(), top_name: top_name.clone(), value: String::new() });
       }
     }
   }
-  walk(doc.root_element(), 1, "", "", &mut out);
+  walk(doc.root_element(), 1, "", "", &(String::new(), String::new()), &mut out);
   Some(out)
 }
 
@@ -94,7 +101,7 @@ fn edit(xml: &str, nodes: &[NodeInfo], f: &str, n: usize) -> Option<((usize, usi
       let between = &xml[nd.range.1..md.range.0];
       Some(((nd.range.0, md.range.1), format!("{}{}{}", &xml[md.range.0..md.range.1], between, whole)))
     }
-    "missing" | "self" | "other" => {
+    "missing" | "self" | "other" | "ancestor" => {
       let is_href = nd.name == "href";
       let new = match f {
         "missing" => (if is_href { "#_no_such_element_" } else { "tNoSuchType" }).to_string(),
@@ -103,6 +110,13 @@ fn edit(xml: &str, nodes: &[NodeInfo], f: &str, n: usize) -> Option<((usize, usi
             format!("#{}", nd.own_id)
           } else {
             nd.own_name.clone()
+          }
+        }
+        "ancestor" => {
+          if is_href {
+            format!("#{}", nd.top_id)
+          } else {
+            nd.top_name.clone()
           }
         }
         _ => {
@@ -279,6 +293,19 @@ fn load_models() -> Vec<Model> {
   walk(std::path::Path::new("/repo/examples/src"), "dmn", &mut files);
   files.sort();
   let mut models = vec![];
+  // a generated model: item definitions nested three levels deep (components of components, collections of
+  // components, references between them), used by input data, a knowledge model's parameter and a decision's result
+  {
+    let xml = include_str!("../../data/c12_nested_types.dmn").to_string();
+    let nodes = dump(&xml).unwrap_or_else(|| tool_error("c12_nested_types.dmn is not well formed"));
+    let ctxs = vec![
+      r#"{loan: {amount: 100, terms: {rate: 0.5, party: {name: "n", tags: ["a", "b"]}, steps: [{after: 1, rate: 0.25}]}}, loans: []}"#.to_string(),
+      r#"{loan: {amount: 100, terms: {rate: "x", party: 5, steps: [1]}}, loans: [1]}"#.to_string(),
+      "{}".to_string(),
+    ];
+    let names = invocable_names(&nodes, &xml);
+    models.push(Model { path: "generated/c12_nested_types.dmn".to_string(), xml, nodes, ctxs, names });
+  }
   for f in files {
     let xml = std::fs::read_to_string(&f).unwrap_or_default();
     if let Some(nodes) = dump(&xml) {
@@ -350,7 +377,7 @@ pub fn check(mut ctx: Ctx, replay: Option<J>) -> ! {
         chosen.push(m.path.clone());
       }
     }
-    models.retain(|m| chosen.contains(&m.path));
+    models.retain(|m| chosen.contains(&m.path) || m.path.starts_with("generated/"));
   }
   models.sort_by(|a, b| a.path.cmp(&b.path));
   let trees: Vec<J> = models.iter().map(|m| json!({"model": m.path, "nodes": m.nodes.iter().enumerate().map(|(i, n)| json!({"k": n.kind.to_string(), "d": n.depth, "nm": n.name, "ref": n.is_ref, "last": last(&m.nodes, i) + 1})).collect::<Vec<_>>()})).collect();
@@ -441,7 +468,7 @@ pub fn check(mut ctx: Ctx, replay: Option<J>) -> ! {
       }
     }
     names.truncate(12);
-    let retarget = r["ops"].as_array().map_or(false, |a| a.iter().any(|o| ["missing", "self", "other"].contains(&o["f"].as_str().unwrap_or(""))));
+    let retarget = r["ops"].as_array().map_or(false, |a| a.iter().any(|o| ["missing", "self", "other", "ancestor"].contains(&o["f"].as_str().unwrap_or(""))));
     json!({"xml": t, "ctxs": model.map(|m| m.ctxs.clone()).unwrap_or_else(|| vec!["{}".to_string()]), "names": names, "count": count, "repeats": if retarget { 6 } else { 1 }})
   };
   let results = {
